@@ -25,6 +25,20 @@ claim("C10",
       "completion after ceil(t_max/dt) steps; absence of hangs beyond loop forms (the Python driver loop is value-level)",
       "DESIGN.md section 6 C10")
 
+claim("C11",
+      "Every vector / pointer subscript of the engine (292) is a mixed-radix form over typed index kinds whose range "
+      "equals the table's allocation extent, with one layout per table; ragged rows are sized by the paired "
+      "neighbour count; subscripts inside && / || conditions are evaluated after the bound tests on their index; "
+      "every std::poisson_distribution is constructed under mean > 0; neighbour-table values (-1 sentinel) are used "
+      "as indices only under a != -1 test (or a non-zero count whose writer invariant is checked); polymorphic bases "
+      "have virtual destructors; scalar locals are definitely assigned; the ctypes boundary agrees in arity, types, "
+      "restype, export list and buffer extents; delete / dereference are guarded by the liveness flag on all paths.",
+      "static analysis: index-kind typing and mixed-radix layout inference over the Clang AST (IDX), must-fact "
+      "dataflow for dominating guards, ctypes/C signature and buffer-extent agreement (FFI)",
+      "int overflow of extent products; IEEE division by zero; validity of input index data (mesh_env, edge endpoints: "
+      "assumed, C20's subject); Gillespie's selected-channel-has-positive-propensity arithmetic",
+      "DESIGN.md section 6 C11")
+
 NOT_YET = {}
 
 def main():
